@@ -333,7 +333,8 @@ func Gen(prop, tier string, seed, run uint64) Plan {
 			}
 		case k < 9:
 			def := genDef(r, name, existing(), p.Converters, nStreams, 2)
-			if isMark {
+			if isMark && !((prop == "C11" || prop == "C12") && r.IntN(4) == 0) {
+				// (C11/C12: a mark is also given an arbitrary query through the update call)
 				def = fmt.Sprintf("id:%d,%d", r.IntN(nStreams+2), r.IntN(nStreams+2))
 			}
 			if invalid && r.IntN(4) == 0 {
@@ -377,6 +378,13 @@ func Gen(prop, tier string, seed, run uint64) Plan {
 			l := ids()
 			if invalid && r.IntN(6) == 0 {
 				l = []uint64{0}
+			}
+			if invalid && r.IntN(6) == 0 {
+				// ids near the ends of the number range
+				l = append(l, []uint64{1<<64 - 1, 1<<64 - 2, 1 << 63, 1 << 32, 1<<32 - 1}[r.IntN(5)])
+				if r.IntN(2) == 0 {
+					l[0], l[len(l)-1] = l[len(l)-1], l[0]
+				}
 			}
 			mutOps = append(mutOps, Op{C: CMut, K: kk, Name: m, IDs: l})
 		case k < 19:
